@@ -148,6 +148,15 @@ def generate(seed, tier="quick"):
                 base_of[p] = t
             continue
         base = base_of[p]
+        if c < 0.24 and tables:
+            # the user edits a column of a live JokerSamples object (same column set and length), then writes it again
+            ti = rnd.randrange(len(tables))
+            t = tables[ti]
+            col = rnd.choice(t["cols"])
+            ops.append({"id": oid, "op": "mutate", "path": p, "table": ti, "col": col, "unit": rnd.choice(UNIT_CHOICES[col]), "gen_seed": rnd.getrandbits(40)})
+            ops.append({"id": oid + 1000, "op": "write", "path": p, "table": ti, "overwrite": True})
+            base_of[p] = t
+            continue
         if c < 0.45:
             kind = rnd.choice(["compatible", "compatible", "compatible", "extra-col", "missing-col", "reorder", "unit", "dtype", "tref-conflict", "tref-none", "polytrend-conflict"])
             t = variant(rnd, base, kind)
@@ -345,7 +354,7 @@ def run(program):
         inj = inject.get()
         inj.install()
         sfilt = inject.storage_filter()
-        tables = program["config"]["tables"]
+        tables = copy.deepcopy(program["config"]["tables"])  # run-time copy: a `mutate` op edits the spec of a live object
         built = {}
         model = {}  # path -> None | FileModel | "unknown"
         distinct = set()
@@ -394,6 +403,22 @@ def run(program):
                     return read_batch(path, op["columns"], so, units=uu, rng=g)
                 raise ValueError(kind)
 
+            if kind == "mutate":
+                ti = op["table"]
+                if ti not in built:
+                    built[ti] = build_table(tables[ti])
+                sobj, data = built[ti]
+                spec = tables[ti]
+                g = tape.np_sub(op["gen_seed"], "mutate")
+                dt = np.float32 if spec["dtype"] == "f4" else np.float64
+                col = op["col"]
+                newv = (g.uniform(0, 0.95, spec["n"]) if col == "e" else (-g.uniform(0, 50, spec["n"]) if col.startswith("ln_") else g.uniform(0.5, 400.0, spec["n"]))).astype(dt)
+                sobj[col] = u.Quantity(newv, u.Unit(op["unit"]))
+                data[col] = newv
+                spec["units"][col] = op["unit"]
+                probe("object_column_replaced_before_rewrite")
+                log.add("op-end", kind, None, newv)
+                continue
             rec = recgen.Record(log)
             fault = op.get("fault")
             fired = None
